@@ -18,8 +18,8 @@ import (
 
 type udpServer struct {
 	W       *simnet.World
-	Sock    *simnet.UDPConn // the (first) listening socket
-	PC      net.PacketConn  // the virtual handle given to the handler
+	Sock    *simnet.UDPConn   // the (first) listening socket
+	PC      net.PacketConn    // the virtual handle given to the handler
 	Socks   []*simnet.UDPConn // all listening sockets served by the one handler
 	PCs     []net.PacketConn
 	nDone   int
@@ -694,9 +694,6 @@ func (r *udpRun) check(which string) {
 				r.f("c04", "c04:reply-misdelivered", "datagram %s was relayed %d times, expected %d (delivered to a client that does not own the source address?)", k, a, expReply[k])
 			}
 		}
-	}
-	if which == "c03" && len(r.srv.M.UDP) != len(assocs) {
-		r.f("c03", "c03:association-count", "%d associations were reported, the reference model has %d", len(r.srv.M.UDP), len(assocs))
 	}
 	if which == "c16" {
 		r.checkMetrics(assocs, outSocks, ownerClient)
